@@ -817,7 +817,16 @@ pub fn plan(property: &'static str, tier: &str) -> Plan {
                 (true, true) => 6,
                 (true, false) => 5,
             };
-            cfgs.push((Cfg { routing: r, discard: *d, workers: 2, depth, ttl: false, lean: false, burst: false, queue: QueueKind::Default, set_limit: false, flow_only: false, fine_deaths: false, script: None }, if raced || (thorough && main4) { 1 } else { 0 }));
+            let bound = if raced || (thorough && main4) { 1 } else { 0 };
+            if bound >= 1 {
+                // the big ones are split by their first event (each of them then shards by its next choice):
+                // the subtrees below the first event are very uneven in size
+                for first in ["D0", "D1", "R1", "R3", "DR", "K0", "K1"] {
+                    cfgs.push((Cfg { routing: r, discard: *d, workers: 2, depth, ttl: false, lean: false, burst: false, queue: QueueKind::Default, set_limit: false, flow_only: false, fine_deaths: false, script: Some(first) }, bound));
+                }
+            } else {
+                cfgs.push((Cfg { routing: r, discard: *d, workers: 2, depth, ttl: false, lean: false, burst: false, queue: QueueKind::Default, set_limit: false, flow_only: false, fine_deaths: false, script: None }, bound));
+            }
         }
     }
     // deeper histories over the reduced alphabet (one kind of death, no kill), default schedule: multi-step
@@ -898,7 +907,7 @@ pub fn plan(property: &'static str, tier: &str) -> Plan {
         if cfg.fine_deaths {
             ecfg.filter = Some(Arc::new(|k, _l, _t| k == vsched::PointKind::Channel));
         }
-        let split = if bound >= 1 && !cfg.lean { 64 } else if cfg.depth >= 4 { 16 } else { 2 };
+        let split = if bound >= 1 && !cfg.lean { 16 } else if cfg.depth >= 4 { 16 } else { 2 };
         units.push(Unit::explore_split(XJob::new(format!("{}/{}", property.to_lowercase(), cfg.name()), ecfg, Some(if thorough && !cfg.lean { bound.max(1) } else { bound }), body(cfg, property)), split));
     }
     if property == "C15" {
